@@ -20,7 +20,7 @@ import os
 
 import vlib
 
-KEEP = {"Cfg", "Txn", "Ret", "Statuses", "TxnEnd", "End"}
+KEEP = {"Cfg", "Txn", "Ret", "Panic", "Statuses", "TxnEnd", "End"}
 
 CFG = """SPECIFICATION %(spec)s
 CONSTANTS
@@ -30,6 +30,8 @@ CONSTANTS
   MaxTxns = %(maxtxns)d
   DataSet = {%(data)s}
   DropSet = {%(drop)s}
+  SrcSet = {%(src)s}
+  LateSet = {%(late)s}
   Devs = {%(devs)s}
   Gen = %(gen)s
 %(tail)s
@@ -48,6 +50,7 @@ CONSTANTS
   MaxList = %(maxlist)d
   StSet = {%(st)s}
   Scopes = {%(scopes)s}
+  Atomic = TRUE
   Devs = {%(devs)s}
   Gen = %(gen)s
 %(tail)s
@@ -64,9 +67,9 @@ def q(xs):
 
 
 def cfg(spec="Spec", kinds=("remote", "lmtp"), rcpts=ALL_RCPTS, maxlist=3, maxtxns=4,
-        data=("ok", "temp", "perm"), drop=(0, 1, 2), devs=(), gen=False, tail=MC_TAIL):
+        data=("ok", "temp", "perm"), drop=(0, 1, 2), src=("ok", "noopen", "readfail", "reset"), late=(1, 2), devs=(), gen=False, tail=MC_TAIL):
     return CFG % dict(spec=spec, kinds=q(kinds), rcpts=q(rcpts), maxlist=maxlist, maxtxns=maxtxns,
-                      data=q(data), drop=", ".join(str(d) for d in drop), devs=q(devs), gen="TRUE" if gen else "FALSE", tail=tail)
+                      data=q(data), drop=", ".join(str(d) for d in drop), src=q(src), late=", ".join(str(d) for d in late), devs=q(devs), gen="TRUE" if gen else "FALSE", tail=tail)
 
 
 def open_findings():
@@ -102,7 +105,7 @@ def dedup(behs):
 def nontrivial(b):
     for t in b["txns"]:
         p = t["plan"]
-        if p.get("drop", 3) < len(t["rcpts"]) or \
+        if p.get("drop", 3) < len(t["rcpts"]) or p.get("src", "ok") != "ok" or p.get("late", 0) > 0 or \
                 any(v != "ok" for part in p.values() if isinstance(part, dict) for v in part.values()):
             return True
         if len(set(t["rcpts"])) < len(t["rcpts"]) or any(r in ("nl", "idn", "cv") for r in t["rcpts"]):
@@ -187,15 +190,19 @@ def run_targets(ctx, replay_obj, binary, known, thorough, skip_mc):
         # LMTP next hop breaking the connection between two per-recipient answers
         focus += [("gen-lmtp-drop", cfg(kinds=("lmtp",), rcpts=("a1", "a2"), maxlist=3 if thorough else 2, maxtxns=1,
                                         data=("ok",), drop=(1, 2), gen=True, tail=GEN_TAIL))]
+        # transport faults: body source fails / connection reset in mid-DATA / a RCPT reply overdue
+        focus += [("gen-faults", cfg(rcpts=("a1", "a2"), maxlist=3 if thorough else 2, maxtxns=1, data=("ok",),
+                                     drop=(), gen=True, tail=GEN_TAIL))]
         if thorough:
             focus += [("gen-remote3", cfg(kinds=("remote",), rcpts=("a1", "idn"), maxlist=1, maxtxns=3,
                                           data=("ok", "perm"), gen=True, tail=GEN_TAIL)),
                       ("gen-lists", cfg(rcpts=ALL_RCPTS, maxlist=2, maxtxns=1, data=("ok", "temp"),
                                         gen=True, tail=GEN_TAIL))]
-        n = 5000 if thorough else 400
+        n = 5000 if thorough else 250
         jobs = [(name, dict(workers=2, timeout=1800, cfg_text=text, heap="3g")) for name, text in focus]
         jobs.append(("sim", dict(workers=1, timeout=1800, simulate=n, depth=80, heap="3g",
-                                 cfg_text=cfg(maxlist=3, maxtxns=4, gen=True, tail=GEN_TAIL))))
+                                 cfg_text=cfg(maxlist=3, maxtxns=4, data=("ok", "temp"), drop=(1,), late=(1,),
+                                              gen=True, tail=GEN_TAIL))))
         # independent TLC runs: side by side
         with concurrent.futures.ThreadPoolExecutor(max_workers=len(jobs)) as ex:
             futs = {name: ex.submit(ctx.tlc, "RcptStatus", None, name=name, **kw) for name, kw in jobs}
@@ -207,10 +214,13 @@ def run_targets(ctx, replay_obj, binary, known, thorough, skip_mc):
             got = behaviours_from(g)
             if name != "sim":
                 ctx.cov["exhaustive_" + name] = len(got)
+            if name == "gen-faults":        # keep the behaviours with a transport fault
+                got = [b for b in got if b["txns"][0]["plan"]["src"] != "ok" or b["txns"][0]["plan"]["late"] > 0]
             if name == "gen-lmtp-drop":     # keep the behaviours in which the break really happens
                 got = [b for b in got if b["txns"][0]["plan"]["drop"] < len(b["txns"][0]["rcpts"])]
-            if name != "sim" and not thorough and len(got) > 300:
-                got = vlib.sample(ctx.rng, got, 300)
+            cap = 160 if name == "gen-faults" else 300
+            if name != "sim" and not thorough and len(got) > cap:
+                got = vlib.sample(ctx.rng, got, cap)
             behs += got
         behs = dedup(behs)
         if not behs:
